@@ -315,7 +315,9 @@ def main():
           "assumptions": meta.get("assumptions", []) + ["CrossHair's models of int/bool/str/list/dict/tuple and z3 are trusted",
                                                        "regions of listed known findings are excluded from the search (see per_condition[].excluded)"],
           "wall_s": round(time.time() - t0, 2), "violations": violations}
-    json.dump(ev, open(os.path.join(ROOT, "evidence", pid + ".json"), "w"), indent=1)
+    # a partial run (--only) must not overwrite the evidence of the registered command
+    evname = pid + (".partial.json" if a.only else ".json")
+    json.dump(ev, open(os.path.join(ROOT, "evidence", evname), "w"), indent=1)
     print("%s %s: %d conditions %s paths=%d solver_queries=%d solver_s=%.1f wall=%.0fs" % (
         pid, tier, len(recs), counts, paths, cov["solver_queries"], cov["solver_s"], time.time() - t0))
     for r in recs:
